@@ -9,6 +9,7 @@ from __future__ import annotations
 import asyncio
 import contextlib
 import io
+import json
 import os
 import random
 import shutil
@@ -422,6 +423,99 @@ def local_os_fault_probe(ctx, rep: Report, n):
         shutil.rmtree(wd, ignore_errors=True)
 
 
+def localbuf_correspondence(ctx, rep, n):
+    """Model/LocalBuf.v against the real local backend: one upload per fresh process (harness/localbuf_child.py) with a real SIGKILL
+    before/after the k-th open / write / close / rename on the temporary.  The logged prefix of operations, plus one flush of as many
+    bytes as the temporary really holds on disk, is run through LocalBuf.exec by vm_compute: the model's disk length and what it
+    says is visible under the destination name must be what the directory shows; the bytes on disk must be a prefix of the data."""
+    import subprocess
+    import sys as _sys
+    rng = ctx.rng
+    cases = []
+    root0 = Path(ctx.scratch) / 'localbuf'
+    for i in range(n):
+        size = rng.choice([0, 1, 50, 700, 5000, 9000, 20000, 70000])
+        chunk = rng.choice([1, 64, 1000, 4096, 8192, 128000]) if size <= 9000 else rng.choice([1000, 4096, 8192, 128000])
+        op = rng.choice(['upload_stream', 'upload_stream', 'upload'])
+        kind = rng.choice(['open', 'write', 'write', 'close', 'rename', 'rename'])
+        kill = [kind, rng.randint(0, 3) if kind == 'write' else 0, rng.choice(['before', 'after'])]
+        old = rng.choice([None, b'old contents'])
+        root = root0 / f'c{i}'
+        root.mkdir(parents=True)
+        name = 'data/ab/cd/' + 'e' * rng.choice([4, 40])
+        if old is not None:
+            (root / name).parent.mkdir(parents=True)
+            (root / name).write_bytes(old)
+        data = rng.randbytes(size)
+        spec = {'root': str(root), 'log': str(root0 / f'c{i}.log'), 'kill': kill, 'op': op, 'name': name, 'data': data.hex(), 'chunk': chunk}
+        (root0 / f'c{i}.spec').write_text(json.dumps(spec))
+        p = subprocess.run([_sys.executable, '-m', 'harness.localbuf_child', str(root0 / f'c{i}.spec')], stdout=subprocess.PIPE, stderr=subprocess.PIPE, timeout=120)
+        events = Path(spec['log']).read_text().split('\n') if Path(spec['log']).exists() else []
+        events = [e for e in events if e]
+        dest = (root / name).read_bytes() if (root / name).exists() else None
+        temps = [q for q in (root / name).parent.glob('*.tmp')] if (root / name).parent.exists() else []
+        tmp_bytes = temps[0].read_bytes() if temps else None
+        cases.append({'i': i, 'spec': {k: v for k, v in spec.items() if k != 'data'}, 'size': size, 'rc': p.returncode, 'events': events, 'dest': dest, 'old': old,
+                      'tmp': tmp_bytes, 'data': data, 'stderr': p.stderr.decode('utf-8', 'replace')[-300:]})
+    shutil.rmtree(root0, ignore_errors=True)
+    # ---- model
+    L = ['From Coq Require Import List Arith NArith.', 'From Replicat Require Import Model.LocalBuf.', 'Import ListNotations.',
+         'Definition cases : list (list (bop unit)) := [']
+    items = []
+    for c in cases:
+        ops = []
+        renamed = False
+        for e in c['events']:
+            if e == 'open':
+                ops.append('BOpen')
+            elif e.startswith('write '):
+                ops.append('BWrite (repeat tt (N.to_nat %d%%N))' % int(e.split()[1]))
+            elif e == 'close':
+                ops.append('BClose')
+            elif e == 'rename':
+                ops.append('BRename')
+                renamed = True
+        on_disk = len(c['dest']) if renamed and c['dest'] is not None else (len(c['tmp']) if c['tmp'] is not None else 0)
+        c['renamed'], c['on_disk'] = renamed, on_disk
+        if c['rc'] == -9:
+            ops.append('BFlush (N.to_nat %d%%N)' % on_disk)           # what the library / OS had moved to the disk when the process died
+        items.append('  [' + '; '.join(ops) + ']')
+    L.append(';\n'.join(items))
+    L.append('].')
+    L.append('Eval vm_compute in map (fun l => let s := exec unit l in (N.of_nat (length (disk unit s)), match visible unit s with Some d => N.of_nat (S (length d)) | None => 0%N end, '
+             'if atomic_order unit (unflush unit l) then 1%N else 0%N)) cases.')
+    res = core.coq_eval_files([('c03_localbuf', '\n'.join(L) + '\n')])
+    rc, text = res['c03_localbuf']
+    if rc != 0:
+        rep.disagreements.append({'what': 'the buffered-upload model could not be evaluated: ' + text[-600:], 'replay': None})
+        return
+    out = core.parse_coq_term(core.parse_coq_values(text)[-1])
+    for c, (mdisk, mvis, _order) in zip(cases, out):
+        killed = c['rc'] == -9
+        rep.case(('localbuf', c['spec']['op'], tuple(c['spec']['kill']), c['size'], c['spec']['chunk']), nontrivial=killed)
+        rep.count('localbuf_' + ('killed' if killed else 'completed' if c['rc'] == 0 else 'failed'))
+        rep.traces_validated += 1
+        desc = f"{c['spec']['op']} of {c['size']} bytes in pieces of {c['spec']['chunk']}, SIGKILL {c['spec']['kill'][2]} {c['spec']['kill'][0]} #{c['spec']['kill'][1]}"
+        if c['rc'] not in (0, -9):
+            rep.disagreements.append({'what': f'localbuf child failed ({desc}): {c["stderr"]}', 'replay': {'probe': 'localbuf', 'spec': c['spec']}})
+            continue
+        actual_vis = (len(c['dest']) + 1) if c['renamed'] else 0
+        if mdisk != c['on_disk'] or mvis != actual_vis:
+            rep.disagreements.append({'what': f'{desc}: the model says {mdisk} bytes on disk / visible {mvis - 1 if mvis else None}, the directory shows {c["on_disk"]} / '
+                                              f'{actual_vis - 1 if actual_vis else None}', 'replay': {'probe': 'localbuf', 'spec': c['spec']}})
+        # model-free: what is visible under the destination name is the old object or the whole new one; disk bytes are a prefix of the data
+        if c['dest'] not in (c['old'], c['data']):
+            rep.violations.append({'what': f'{desc}: the destination name shows {len(c["dest"]) if c["dest"] is not None else None} bytes that are neither the old object nor the new one '
+                                           f'({c["size"]} bytes): a partial object is visible after the kill',
+                                   'signature': {'kind': 'partial_object', 'probe': 'localbuf'}, 'replay': {'probe': 'localbuf', 'spec': c['spec']}})
+        held = c['dest'] if c['renamed'] else c['tmp']
+        if held is not None and c['renamed'] is False and not c['data'].startswith(held):
+            rep.disagreements.append({'what': f'{desc}: the temporary holds bytes that are not a prefix of the data', 'replay': {'probe': 'localbuf', 'spec': c['spec']}})
+        if not killed and c['dest'] != c['data']:
+            rep.violations.append({'what': f'{desc}: the upload returned normally but the object stored differs from the data', 'signature': {'kind': 'partial_object', 'probe': 'localbuf'},
+                                   'replay': {'probe': 'localbuf', 'spec': c['spec']}})
+
+
 CLI_MINE = ('exception', 'hang', 'snapshot_unreadable', 'snapshot_objects', 'snapshot_name', 'partial_object', 'unknown_object', 'referenced_chunk_missing', 'gc_incomplete', 'restore_mismatch', 'config_touched', 'gc_overreach', 'stored_bytes')
 
 
@@ -440,6 +534,7 @@ def _run(ctx, nscen, max_points, nlocal, rep):
     local_stage_cases(ctx.rng, ctx.scratch, rep, nlocal)
     cache_kill_probe(ctx, rep, max(4, nlocal // 10))
     local_os_fault_probe(ctx, rep, max(4, nlocal // 10))
+    localbuf_correspondence(ctx, rep, max(16, nlocal // 3))
     # real kills: `python -m replicat` processes on a repository on disk, SIGKILLed at the k-th rename / unlink / temp-file creation
     # (before or after it), and single OSErrors out of directory scans; afterwards everything visible must be whole and usable
     from harness import cli_hist
